@@ -44,6 +44,7 @@ import (
 type c06Tok struct {
 	tt                  pxml.TokenType
 	data, text, attrVal []byte
+	bare                bool // attribute token without `=` (AttrVal is nil)
 }
 
 func c06Lex(src []byte) []c06Tok {
@@ -61,6 +62,7 @@ func c06Lex(src []byte) []c06Tok {
 		t := c06Tok{tt: tt, data: append([]byte{}, data...), text: append([]byte{}, l.Text()...)}
 		if tt == pxml.AttributeToken {
 			t.attrVal = append([]byte{}, l.AttrVal()...)
+			t.bare = l.AttrVal() == nil
 		}
 		out = append(out, t)
 	}
@@ -69,7 +71,11 @@ func c06Lex(src []byte) []c06Tok {
 func c06Groups(ts []c06Tok) string {
 	gs := make([][][]byte, len(ts))
 	for i, t := range ts {
-		gs[i] = [][]byte{[]byte(strconv.Itoa(int(t.tt))), t.data, t.text, t.attrVal}
+		kind := int(t.tt)
+		if t.bare {
+			kind = 12
+		}
+		gs[i] = [][]byte{[]byte(strconv.Itoa(kind)), t.data, t.text, t.attrVal}
 	}
 	return h.Groups(gs)
 }
@@ -206,7 +212,7 @@ func c06Misc(r *h.RNG, sb *strings.Builder, inElem bool) {
 		}
 		sb.WriteString(r.Pick([]string{"", "", " "}) + "?>")
 	case 2:
-		if r.Chance(5) { // free-form PI data (known finding K-C06-5)
+		if r.Chance(5) { // free-form PI data
 			sb.WriteString("<?" + r.Pick([]string{"php echo \"x\"; ", "pi some text", "pi a"}) + "?>")
 		} else {
 			sb.WriteString(r.Pick(c06Ws))
@@ -717,7 +723,10 @@ func c06Events(items []c06Item, wf *[]string) []c06Ev {
 		case 'E':
 			evs = append(evs, c06Ev{mark: "E", class: 't'})
 		case 'P':
-			s, _ := c06PI(it.data, wf)
+			s, okPI := c06PI(it.data, wf)
+			if !okPI { // free-form PI data: the dependency lexer discards the white space before `?>`
+				s = strings.TrimRight(s, " \t\r\n")
+			}
 			evs = append(evs, c06Ev{mark: "P:" + it.name + "|" + s, class: 'n'})
 		case 'D':
 			evs = append(evs, c06Ev{mark: "D:" + it.data, class: 'n'})
@@ -884,7 +893,10 @@ func c06GoStream(b []byte, keep bool) ([]string, error) {
 			}
 		case exml.ProcInst:
 			var ig []string
-			s, _ := c06PI(string(t.Inst), &ig)
+			s, okPI := c06PI(string(t.Inst), &ig)
+			if !okPI {
+				s = strings.TrimRight(s, " \t\r\n")
+			}
 			evs = append(evs, c06Ev{mark: "P:" + t.Target + "|" + s, class: 'n'})
 		case exml.Directive:
 			evs = append(evs, c06Ev{mark: "D:" + string(t), class: 'n'})
@@ -897,11 +909,7 @@ func c06GoStream(b []byte, keep bool) ([]string, error) {
 
 // signature (failing clauses) recorded for each trigger
 var c06TrigClauses = map[string][]string{
-	"cdEnd":         {"wf"},
-	"cdataJoin":     {"chars", "wf"}, // joining `]]` and `>` also yields `]]>`
-	"piData":        {"pi", "attr"}, // token level: the re-lexed PI has different pseudo-attributes
-	"keepEmpty":     {"chars"},
-	"attrCRLF":      {"attr"},
+	"attrCRLF": {"attr"},
 }
 
 type c06Case struct {
@@ -1168,7 +1176,12 @@ func init() {
 			"<a b='x&#60;y \"'/>", "<a b=\"a &#38;#38; &#38;amp; b\"/>", "<a b=\"&quot;&apos;&apos;\"/>", "<a>&#xE9;&#233;&#x2028;&#x10000;</a>",
 			"<!DOCTYPE a [ <!ENTITY e1 \"v\"> ]>\n<a>&e1;</a>", "<a>\n  <b>  x  y  </b>\n  <c/>\n</a>\n", "<a>x<![CDATA[ <&<&<& ]]>y</a>", "<a>x<![CDATA[<&<]]>y</a>",
 			"<a>&lt;&amp;&gt;&quot;&apos;</a>", "<a>x &#10; y</a>", "<a><![CDATA[]]></a>", "<a>x <![CDATA[]]> z</a>", "<a>a]]<!--c-->b</a>", "<a b=\"&#x26;#60;\"/>",
-			"<a b=\"x&#60;y &#38; z&#10;\"/>", "<a b=\"&#x9;&#xA;&#xD;&#9;&#38;#38;&#x26;&#x3c;q\" c='&#60;&#38;'/>", "<a>x <?pi a=\"1\"?> y</a>", "<a>x <?pi a=\"1\"?>y</a>", "<a><b/> <c/></a>", "<a>&amp;&#35;60;</a>", "<a>&#38;lt;</a>",
+			"<a b=\"x&#60;y &#38; z&#10;\"/>", "<a b=\"&#x9;&#xA;&#xD;&#9;&#38;#38;&#x26;&#x3c;q\" c='&#60;&#38;'/>", "<a>x <?pi a=\"1\"?> y</a>",
+			// inputs of the findings fixed in /repo (604975d, 34fd522, 9a0c504, ce8fb25)
+			"<a>x <![CDATA[y]]> z</a>", "<a><![CDATA[y]]>&#32;z</a>", "<a>x <![CDATA[y]]><?pi?> z</a>", "<a><b> </b></a>", "<a><b></b> <c> </c></a>",
+			"<a>]]&gt;</a>", "<a>a ]]&gt; b<![CDATA[c]]]]><![CDATA[>d]]></a>", "<a>a]]<!--c-->>b</a>", "<a><![CDATA[<]]]]><![CDATA[>]]></a>",
+			"<a><![CDATA[<<<<<]]]]><![CDATA[>]]>></a>", "<a>]]]>]>]]&#62;></a>", "<a>]]<![CDATA[]]>></a>", "<a>]]<b/>></a>",
+			"<?php echo \"x\"; ?><a/>", "<?php echo  \"a  b\";  ?><a/>", "<?pi a=\"1\"  free text?><a c=\"d\"/>", "<?pi a= ?><a/>", "<a>x <?pi a=\"1\"?>y</a>", "<a><b/> <c/></a>", "<a>&amp;&#35;60;</a>", "<a>&#38;lt;</a>",
 		}
 		var cases []*c06Case
 		for _, f := range fixed {
@@ -1195,12 +1208,8 @@ func init() {
 			cases = cases[:0]
 			return err
 		}
-		// h.NewRNG(seed) streams of neighbouring seeds are one-step shifts of each other (splitmix64 state =
-		// seed*gamma+const): derive the document stream from a hashed seed so that seeds give disjoint samples
-		base := &h.RNG{S: c.Rng.Next()*0xD6E8FEB86659FD93 ^ (c.Seed+1)*0xA0761D6478BD642F}
-		base = &h.RNG{S: base.Next() ^ base.Next()<<1}
 		for i := 0; i < n; i++ {
-			r := base.Fork()
+			r := c.Rng.Fork()
 			doc := []byte(c06Doc(r, c.Thorough()))
 			for _, keep := range []bool{false, true} {
 				if cs := c06Prepare(c, st, doc, keep); cs != nil {
